@@ -13,7 +13,9 @@ BASE = {
     "parameters": {"host": "%todo(\"host is missing\")%", "port": "%todo()%", "endpoint": "%host%", "url": "http://%host%:%port%/", "plain": 5,
                    "m1": "%todo(\"not ready,retry later\")%", "m2": "%todo(\"see step 1 ,then  step 2\")%", "m3": "%todo(\"a,,b\")%", "m4": "x %todo(\"inside, a pattern\")% y",
                    # the failing chunk at the beginning / at the end / repeated / next to another failing chunk
-                   "addr": "%host%:%port%", "first": "%todo(\"first chunk\")% tail", "last": "head %host%", "twice": "%host%%host%", "both": "%port%%host%", "deep": "%addr%/%endpoint%"},
+                   "addr": "%host%:%port%", "first": "%todo(\"first chunk\")% tail", "last": "head %host%", "twice": "%host%%host%", "both": "%port%%host%", "deep": "%addr%/%endpoint%",
+                   # a failing chunk FOLLOWED by a reference to an intermediate parameter: nothing behind the failure may be evaluated (and cached)
+                   "basePort": 80, "port2": "%basePort%", "addr2": "%host%:%port2%", "proto": "%scheme%", "scheme": "https", "url2": "%m1% %proto%://%port2%"},
     "services": {
         "db": {"todo": True},
         "repo": {"constructor": "NewA", "arguments": ["@db", "%endpoint%"]},
@@ -26,6 +28,8 @@ OPS = [
     {"op": "param", "name": "host"}, {"op": "param", "name": "endpoint"}, {"op": "param", "name": "url"}, {"op": "param", "name": "port"},
     {"op": "param", "name": "m1"}, {"op": "param", "name": "m2"}, {"op": "param", "name": "m3"}, {"op": "param", "name": "m4"},
     {"op": "param", "name": "addr"}, {"op": "param", "name": "first"}, {"op": "param", "name": "last"}, {"op": "param", "name": "twice"}, {"op": "param", "name": "both"}, {"op": "param", "name": "deep"},
+    {"op": "param", "name": "addr2"}, {"op": "param", "name": "port2"}, {"op": "param", "name": "url2"}, {"op": "param", "name": "proto"},
+    {"op": "override_param", "name": "basePort", "kind": "int", "value": 8080}, {"op": "override_param", "name": "scheme", "kind": "str", "value": "http"},
     {"op": "get", "name": "srv"},
     {"op": "get", "name": "db"}, {"op": "get", "name": "repo"}, {"op": "get", "name": "api"}, {"op": "get", "name": "misc"},
     {"op": "override_param", "name": "host", "kind": "str", "value": "localhost"}, {"op": "override_param", "name": "port", "kind": "int", "value": 8080},
@@ -46,6 +50,12 @@ def run(tier, seed, replay):
         hists.append(list(h))
     for _ in range(150 if tier == "quick" else 4000):
         hists.append([r.choice(OPS) for _ in range(r.randint(3, L + 2))])
+    # directed: a failed evaluation, then an override of something BEHIND the failing chunk, then reads
+    P = lambda n: {"op": "param", "name": n}
+    OV = lambda n, k, v: {"op": "override_param", "name": n, "kind": k, "value": v}
+    directed = [[P("addr2"), OV("basePort", "int", 8080), P("port2"), OV("host", "str", "h"), P("addr2")],
+                [P("url2"), OV("scheme", "str", "http"), P("proto"), OV("basePort", "int", 1), P("port2")],
+                [P("addr2"), P("url2"), OV("basePort", "int", 9), OV("scheme", "str", "s"), P("port2"), P("proto"), {"op": "get", "name": "srv"}]]
     # the same base configuration with every subset of {host, port, db} marked todo is covered by overriding them first
     specs = []
     allh = []
@@ -66,14 +76,15 @@ def run(tier, seed, replay):
     for a in range(0, len(hists), per):
         cfg = variants[(a // per) % len(variants)]
         files = [cfg]
-        if k % 2:
+        lay = k % 3
+        if lay == 1:
             # the documented workflow: a base file and an environment overlay that both spell out `todo` with different values
             # (the later file wins: the merged configuration is cfg)
             first = json.loads(json.dumps(cfg))
             db_todo = bool(cfg["services"]["db"].get("todo"))
             first["services"]["db"] = {"todo": False, "constructor": "NewA"} if db_todo else {"todo": True}
             files = [first, {"services": {"db": {"todo": True} if db_todo else {"todo": False, "constructor": "NewA"}}}]
-        if k % 4 == 2:
+        if lay == 2:
             # the flag is set in the FIRST file only; a later overlay mentions every service again (adds a tag, a getter switch) without
             # saying anything about todo: placeholders stay placeholders, ordinary services stay ordinary
             base1 = json.loads(json.dumps(cfg))
@@ -84,11 +95,24 @@ def run(tier, seed, replay):
             files = [base1, {"services": {n_: {"tags": ["late"]} for n_ in cfg["services"]}}]
         sp = common.mk_spec(k, files, keep_out=True)
         sp["cfg"] = cfg
-        sp["what"] = ["todo/override" + ("/two-files" if k % 2 else "/overlay" if k % 4 == 2 else "")]
+        sp["what"] = ["todo/override" + ("/two-files" if lay == 1 else "/overlay" if lay == 2 else "")]
         specs.append(sp)
         # a probe process has ONE container: run the histories of this group back to back; later histories see earlier overrides,
         # which is just a longer history
         allh.append([o for h in hists[a:a + per] for o in h])
+        k += 1
+    # fresh containers: the directed histories on several todo subsets, and a sample of the length-2 histories (in the groups above only
+    # the first history of a group starts from a container nothing has happened to)
+    fresh = [(variants[v], h) for h in directed for v in (0, 3, 7)]
+    pairs2 = [list(h) for h in itertools.product(OPS, repeat=2)]
+    r.shuffle(pairs2)
+    fresh += [(variants[j % 8], h) for j, h in enumerate(pairs2[: (16 if tier == "quick" else 200)])]
+    for cfg, h in fresh:
+        sp = common.mk_spec(k, [cfg], keep_out=True)
+        sp["cfg"] = cfg
+        sp["what"] = ["todo/override/fresh"]
+        specs.append(sp)
+        allh.append(h)
         k += 1
     rs, hs, gs = rtcommon.gen_cases(seed, "c15r", 20 if tier == "quick" else 300, weights={"todo": 0.3}, hist_len=10,
                                     kinds=["get", "param", "param", "override_param", "override_service", "get"])
@@ -107,13 +131,39 @@ def run(tier, seed, replay):
     # direct oracle on the real results: a todo parameter/service that was never overridden always errors with the documented message
     nontrivial = set()
     dist = {"ops": 0, "todo_errors": 0, "after_override_ok": 0}
+    # direct oracle for "a dependant not yet evaluated receives the overriding value": `endpoint` is "%host%", `port2` is "%basePort%"
+    DEP = {"endpoint": "host", "port2": "basePort", "proto": "scheme"}
+    # operations whose SUCCESS evaluates (and caches) the dependant on the way; a failing one stops at its first failing chunk / argument
+    MAY = {"endpoint": {("param", "endpoint"), ("param", "deep"), ("get", "repo"), ("get", "api")}, "port2": {("param", "port2"), ("param", "addr2"), ("param", "url2")},
+           "proto": {("param", "proto"), ("param", "url2")}}
     for k in acc:
         cfg = specs[k].get("cfg")
         if cfg is None:
             continue
         overridden = set()
+        ov_val, ok_before = {}, set()
         for o, line in zip(allh[k], rl[k]):
             dist["ops"] += 1
+            if o["op"] == "override_param":
+                ov_val[o["name"]] = o
+            if o["op"] == "param" and o["name"] in DEP and str((sp_ := specs[k]).get("what", [""])[0]).startswith("todo/override"):
+                src = DEP[o["name"]]
+                if src in ov_val and o["name"] not in ok_before:
+                    # never successfully evaluated before the override: the value must be the overriding one
+                    v_ = ov_val[src]
+                    want_line = "I(int,%s)" % v_["value"] if v_["kind"] == "int" else "S(%s)" % v_["value"]
+                    dist["after_override_ok"] += 1
+                    if line != want_line:
+                        out.violation("override-not-seen", "GetParam(%s) after OverrideParam(%s, %r) returns %s (the dependant had not been evaluated successfully before)" % (o["name"], src, v_["value"], line[:120]),
+                                      dict(common.slim(specs[k], obs[k]), history=allh[k]))
+            for dep_, ops_ in MAY.items():
+                if (o["op"], o.get("name")) in ops_ and not line.startswith(("E(", "PANIC(")):
+                    ok_before.add(dep_)
+            if o["op"] == "get" and o.get("name") in ("repo", "api"):
+                ok_before.add("endpoint")      # the library evaluates every argument of a service and joins the errors: %endpoint% is evaluated even when @db fails
+            if o["op"] == "override_param" and o["name"] in DEP.values():
+                # the cache of the dependants is NOT dropped by an override of their source: a dependant evaluated earlier keeps its value (modelled; not decided here)
+                pass
             if o["op"] in ("override_param", "override_service"):
                 overridden.add((o["op"][9:], o["name"]))
             if o["op"] == "param":
